@@ -152,6 +152,7 @@ func WriteTriangles(wg *sync.WaitGroup, triangles *[]*Triangle3) chan<- []*Trian
 
 	wg.Add(1)
 	go func() {
+		simYield("sdf.WriteTriangles.start", 0)
 		defer wg.Done()
 		// read triangles from the channel and append them to the slice
 		for ts := range c {
